@@ -284,6 +284,10 @@ func runC08(p *Program, r *Report) {
 						site[name]++
 						key := fmt.Sprintf("%s call#%d of %s", shortFn(f), site[name], name)
 						uses, _ := resultUses(in, ei)
+						if len(uses) == 0 && memReaderArg(in) {
+							r.Hold("C08.RD2", key, p.InstrPos(in), "reads data already in memory (*bytes.Reader): whether it fails is a function of the bytes alone, there is no delivery schedule")
+							continue
+						}
 						if len(uses) == 0 {
 							r.Violate("C08.RD2", key, p.InstrPos(in), "the error result of "+name+" is dropped: a failed or short read is indistinguishable from success")
 						} else {
@@ -576,6 +580,38 @@ func inMemoryReader(p *Program, v ssa.Value, depth int) bool {
 			}
 		}
 		return len(x.Edges) > 0
+	}
+	return false
+}
+
+// memReaderArg: the stream the read primitive is applied to is, by its static type
+// before any interface conversion, a *bytes.Reader or *strings.Reader.
+func memReaderArg(c *ssa.Call) bool {
+	cc := c.Common()
+	var vals []ssa.Value
+	if cc.IsInvoke() {
+		vals = append(vals, cc.Value)
+	}
+	vals = append(vals, cc.Args...)
+	for _, v := range vals {
+		for {
+			if mi, ok := v.(*ssa.MakeInterface); ok {
+				v = mi.X
+				continue
+			}
+			if ct, ok := v.(*ssa.ChangeInterface); ok {
+				v = ct.X
+				continue
+			}
+			break
+		}
+		if pt, ok := v.Type().(*types.Pointer); ok {
+			if n, ok := pt.Elem().(*types.Named); ok && n.Obj().Pkg() != nil {
+				if (n.Obj().Pkg().Path() == "bytes" || n.Obj().Pkg().Path() == "strings") && n.Obj().Name() == "Reader" {
+					return true
+				}
+			}
+		}
 	}
 	return false
 }
